@@ -319,42 +319,25 @@ func runDrops(r *core.Run) {
 // runCastVariants: CAST / CONVERT with and without length / scale on either side (ConvertType.Length and .Scale are
 // optional *SQLVal: nil on one side only must give "no match", never a panic), embedded at several places of a statement.
 func runCastVariants(r *core.Run) {
-	types := []string{"char", "char(10)", "char(12)", "decimal", "decimal(10)", "decimal(10, 2)", "decimal(8, 2)", "binary", "binary(4)", "signed", "unsigned"}
-	shapes := []string{
-		"select cast(a as %s) from t1",
-		"select convert(a, %s) from t1 where b = 1",
-		"select a from t1 where cast(b as %s) = 'x'",
-		"update t1 set a = cast(b as %s) where c = 2",
-		"insert into t1 (a) values (cast('7' as %s))",
-		"delete from t1 where convert(a, %s) in (1, 2)",
-	}
-	for si, shape := range shapes {
-		for i, pt := range types {
-			for j, qt := range types {
-				if !r.Thorough() && (i+2*j+si)%3 != 0 && i != j {
-					continue
-				}
-				pat := fmt.Sprintf(shape, pt)
-				q := fmt.Sprintf(shape, qt)
-				ptk, st := patternToken(pat), stmtToken(q)
-				if strings.HasSuffix(ptk, "/!") || strings.HasSuffix(st, "/!") {
-					continue
-				}
-				r.Begin("cast:"+pat+"|"+q, true, "pattern-cast-variants")
-				out := r.Do("C05.match " + ptk + " " + st)
-				if !r.Check(out == "true" || out == "false", "matcher-panic", "pattern `"+pat+"` against `"+q+"` => "+out) {
-					continue
-				}
-				if i == j {
-					r.Check(out == "true", "pattern-self-mismatch", "the statement's own text used as a pattern does not match it: "+q+" => "+out)
-				} else {
-					r.Check(out == "false", "pattern-ignores-clause", "pattern `"+pat+"` matches `"+q+"` (different target type)")
-				}
-				// the same through the whole censor: a deny rule with this pattern must never make HandleQuery panic
-				cfg := cspec{hs: []hspec{{kind: "D", patterns: []string{pat}}}}
-				v := r.Do("C05.handle " + cfg.tokens() + " " + st)
-				r.Check(v == "allow" || v == "deny", "matcher-panic", "deny pattern `"+pat+"`, statement `"+q+"` => "+v)
-			}
+	for _, cv := range CastVariantPairs(r.Thorough()) {
+		pat, q := cv.Pattern, cv.Query
+		ptk, st := patternToken(pat), stmtToken(q)
+		if strings.HasSuffix(ptk, "/!") || strings.HasSuffix(st, "/!") {
+			continue
 		}
+		r.Begin("cast:"+pat+"|"+q, true, "pattern-cast-variants")
+		out := r.Do("C05.match " + ptk + " " + st)
+		if !r.Check(out == "true" || out == "false", "matcher-panic", "pattern `"+pat+"` against `"+q+"` => "+out) {
+			continue
+		}
+		if cv.SameType {
+			r.Check(out == "true", "pattern-self-mismatch", "the statement's own text used as a pattern does not match it: "+q+" => "+out)
+		} else {
+			r.Check(out == "false", "pattern-ignores-clause", "pattern `"+pat+"` matches `"+q+"` (different target type)")
+		}
+		// the same through the whole censor: a deny rule with this pattern must never make HandleQuery panic
+		cfg := cspec{hs: []hspec{{kind: "D", patterns: []string{pat}}}}
+		v := r.Do("C05.handle " + cfg.tokens() + " " + st)
+		r.Check(v == "allow" || v == "deny", "matcher-panic", "deny pattern `"+pat+"`, statement `"+q+"` => "+v)
 	}
 }
